@@ -513,3 +513,50 @@ func init() {
 		return src, out, ok, err
 	}
 }
+
+// C06: the aggregator concludes "no more files" while a reader is still
+// waiting to register its channel.
+func init() {
+	specialReplays["mapr/server.(*Aggregate).nextLine#post:done-only-when-every-reader-registered"] = func(P *Program, v *ObligResult) (string, string, bool, error) {
+		fn := fnOfObligation(P, v.Name)
+		g := &goGen{P: P, model: v.Model, pkg: fn.Pkg.Pkg, imports: map[string]bool{"testing": true, "fmt": true, "bytes": true, "time": true, "context": true,
+			modPath + "/internal/io/line": true}}
+		body := `a, err := NewAggregate("select count($line) from . group by $hostname logformat generic")
+		if err != nil {
+			t.Skip(err)
+		}
+		ctx, cancel := context.WithCancel(context.Background())
+		defer cancel()
+		fieldsCh := a.fieldsFromLines(ctx)
+		// file 1: its reader registers, delivers one line and finishes
+		ch1 := make(chan *line.Line, 1)
+		a.NextLinesCh <- ch1
+		ch1 <- line.New(bytes.NewBufferString("first file"), 1, 100, "f1")
+		close(ch1)
+		got := 0
+		closed := false
+		deadline := time.After(5 * time.Second)
+		for !closed {
+			select {
+			case _, ok := <-fieldsCh:
+				if !ok {
+					closed = true
+				} else {
+					got++
+				}
+			case <-deadline:
+				t.Skip("aggregator still waiting (no premature conclusion in this run)")
+			}
+		}
+		// file 2: its reader was queued behind the concurrency limiter and
+		// registers only now; the aggregator has already concluded
+		ch2 := make(chan *line.Line, 1)
+		a.NextLinesCh <- ch2
+		ch2 <- line.New(bytes.NewBufferString("second file"), 1, 100, "f2")
+		close(ch2)
+		panic(fmt.Sprintf("the aggregator concluded 'no more files' after %d line(s) while the reader of the second file had not registered yet: that file is never aggregated", got))`
+		src := g.testFile(fn.Pkg.Pkg, body)
+		out, ok, err := runOverlayTest(P, fn.Pkg.Pkg, src)
+		return src, out, ok, err
+	}
+}
